@@ -2,7 +2,8 @@
 
 Theorems: coq/Properties/C06.v.  Ties (correspondence by execution):
   ranges  : Lattice.parse_ranges / main.parse_lattice on option strings
-  bounds  : LatticeBounds.size/dims/indices/__getitem__, LatticeSpec + items
+  bounds  : LatticeBounds.size/dims/indices/__getitem__, LatticeSpec + items,
+            LatticeSpec.__getitem__ (tuple / int)
   fillid  : ParseMCNPCell.to_fillid
   numeric : latticeReciprocal, latticeVector, squareLatticeReciprocalVecs,
             squareLatticeBaseVectors, compose_transform at binary64
@@ -38,7 +39,7 @@ THEOREMS = ['C06_indices_first_fastest', 'C06_items_array',
             'C06_dimension_checks_spec', 'C06_degenerate_range_refuted',
             'C06_square_sides_irrelevant', 'C06_develop_lattice_square',
             'C06_extract_surfaces', 'C06_parse_ranges_spelled',
-            'C06_parse_lattice_option']
+            'C06_parse_lattice_option', 'C06_getitem_tuple_last_fastest']
 TRUSTED = [
     'hand-written model coq/C06/Model.v (modelled, tied by execution only)',
     'cells, surfaces other than planes and the effect of a transformation on a '
@@ -641,6 +642,34 @@ def direct_ties(res, rng, quick):
     res.sample({'items': metas[0]})
     tie(res, 'c06_items', 'LatticeSpec + items',
         'bounds * list Z * res (list (list Z * Z))', 'check_items', cases,
+        metas, lambda m: str(m)[:300])
+
+    # -- LatticeSpec.__getitem__ (tuple and int) --
+    cases, metas = [], []
+    for k in range(150 * mult):
+        bs = gen_bounds(rng, allow_weird=rng.random() < 0.15) or [(0, 1)]
+        size = L.LatticeBounds(list(bs)).size()
+        n = size if rng.random() < 0.9 else size + 1
+        spec = [rng.randint(0, 40) for _ in range(max(n, 0))]
+        if rng.random() < 0.8:
+            arg = tuple(rng.randint(lo - 1, max(hi, lo) + 1) if rng.random() < 0.2
+                        else rng.randint(min(lo, hi), max(lo, hi))
+                        for lo, hi in bs)
+            if rng.random() < 0.1:
+                arg = arg[:-1] if rng.random() < 0.5 else arg + (0,)
+            carg = f'(inl {clist(cz(i) for i in arg)})'
+        else:
+            arg = rng.randint(-len(spec) - 2, len(spec) + 1)
+            carg = f'(inr {cz(arg)})'
+        out = call(lambda b, s_, a: int(L.LatticeSpec(
+            L.LatticeBounds(list(b)), s_)[a]), bs, spec, arg)
+        cases.append(cpair(cbounds(bs), clist(cz(u) for u in spec), carg,
+                           cres(out, cz)))
+        metas.append({'bounds': bs, 'spec': spec, 'arg': arg, 'impl': out})
+        res.seen(('getitem', bs, spec, arg), nontrivial=len(bs) > 1)
+        res.count('spec_getitem:' + (out[0] if out[0] == 'ok' else out[1]))
+    tie(res, 'c06_specget', 'LatticeSpec.__getitem__',
+        'bounds * list Z * (list Z + Z) * res Z', 'check_spec_getitem', cases,
         metas, lambda m: str(m)[:300])
 
     # -- to_fillid --
